@@ -21,8 +21,8 @@ def run(tier, seed):
                 'not decided: that var.v shares memory with dae.x/dae.y (aliasing of NumPy views is a run-time fact); '
                 'the group branch of link_external (GroupBase.get) is covered by C19',
                 'Python ints are mathematical integers; z3 div/mod with positive divisor')
-    items = [(A.request_address('C10', 'x', False),), (A.request_address('C10', 'x', True),),
-             (A.request_address('C10', 'y', False),), (A.request_address('C10', 'y', True),),
+    items = [(A.request_address('C10', 'x', False), None, A.replay_request_address), (A.request_address('C10', 'x', True), None, A.replay_request_address),
+             (A.request_address('C10', 'y', False), None, A.replay_request_address), (A.request_address('C10', 'y', True), None, A.replay_request_address),
              (A.set_address_var('C10'),), (A.system_set_address('C10'),), (A.set_xy_name('C10'),),
              (A.link_external_model('C10'),), (A.link_external_group('C10'), None, A.replay_link_external_group), (A.set_arrays_inplace('C10'),), (A.set_hi_name('C10'), None, A.replay_hi_names), (__import__('contracts.fn_registry', fromlist=['x']).find_or_add('C10'), None, __import__('contracts.fn_registry', fromlist=['x']).replay_find_or_add), (A.extparam_link_model('C10'),), (A.extparam_link_group('C10'), None, A.replay_extparam_group), (A.extservice_link('C10'),),
              (A.model_get('C10'),)]
